@@ -6,4 +6,5 @@ export GOFLAGS=-mod=mod GOPROXY=off GOSUMDB=off GOTOOLCHAIN=local
 mkdir -p /verif/bin /verif/out /verif/evidence /verif/.work
 go build -tags verif -o /verif/bin/check ./cmd/check
 go build -tags verif -race -o /verif/bin/check-race ./cmd/check
+(cd /repo && go build -tags verif -o /verif/bin/gofakes3-verif ./cmd/gofakes3)
 echo "setup ok"
